@@ -111,3 +111,14 @@ PROPS["C06"] = {
     "assumptions": ["kernel semantics of signals and process groups, survival of descendants, and signal delivery to the binary are outside the claim",
                     "counterexamples of this harness are not replayed natively (it would send real signals to arbitrary pids)"],
 }
+
+PROPS["C19"] = {
+    "harnesses": [
+        {"pkg": "api", "name": "VerifC19_Handlers", "quick": {}, "thorough": {}, "reach": ["end", "malformed"],
+         "bounds": {"routes": "12 JSON routes", "runner outcome": "ok / error / error with partial result", "body": "well-formed / malformed"}},
+        {"pkg": "api", "name": "VerifC19_Numeric", "quick": {}, "thorough": {}, "reach": ["end", "nonnumeric"],
+         "bounds": {"path parameters": "every byte string over [-+0129x] of length <=3 (second: [-09x] len<=2)"}},
+    ],
+    "stubs": ["gin.Context.JSON / ShouldBindJSON / DefaultQuery (recording; natively the real gin test context is used)", "IProject: recording stub with symbolic outcomes"],
+    "assumptions": ["gin routing, HTTP transport, JSON encoding/decoding and the whole client package are outside the claim"],
+}
